@@ -40,6 +40,11 @@ def extras(rng, b, depth=0):
         b.items.append(("attr", "name", body, [(q + body + q, "raw")], "string"))
     if "metadata" in props and rng.random() < .2 and not any(len(it) > 1 and it[1] == "metadata" for it in b.items):
         b.items.append(("kv", "metadata", [("Title", 'The \\"T\\"'), ("wms_srs", "EPSG:4326"), ("TITLE", "again")]))
+    # strings whose content is itself wrapped in the other kind of quotes: only the OUTER pair goes
+    if "projection" in props and rng.random() < .25 and not any(it[0] == "projection" for it in b.items):
+        b.items.append(("projection-raw", ["'init=epsg:3857'", "proj=utm", '"+zone=15"']))
+    if "template" in props and rng.random() < .15 and not any(len(it) > 1 and it[1] == "template" for it in b.items):
+        b.items.append(("attr", "template", "'quoted'", [("\"'quoted'\"", "raw")], "string"))
     # a non-repeatable keyword given twice: the last value, at the first position
     attrs = [it for it in b.items if it[0] == "attr" and it[4] != "string"]
     if attrs and rng.random() < .3:
@@ -62,8 +67,7 @@ def explore(ctx, scale=1.0):
         b = gen.gen_block(rng, t, depth=depth, max_items=rng.choice([3, 6, 10]))
         extras(rng, b)
         lay = gen.Layout(rng, plain=(i % 2 == 0))
-        text = gen.render(b, lay)
-        want = gen.expected(b)
+        text, want = render_with_raw(b, lay)
         ctx.case(text, True, sample={"text": text[:200]} if rng.random() < .003 else None)
         ctx.count(f"root:{t}"); ctx.count("layout:" + ("plain" if lay.plain else "free")); ctx.count(f"depth={depth}")
         rep = {"text": text, "expected": json.loads(core.canon(want))}
@@ -100,6 +104,37 @@ def explore(ctx, scale=1.0):
             ctx.corr_ok("transform")
         else:
             ctx.corr_diff("transform", {"text": text[:1500]}, json.dumps(ans)[:400], json.dumps(real)[:400])
+
+
+def render_with_raw(b, lay):
+    """gen.render / gen.expected, plus PROJECTION blocks whose strings are written with explicit nested quotes"""
+    raws = []
+    def strip(blk):
+        for it in list(blk.items):
+            if it[0] == "block":
+                strip(it[2])
+            elif it[0] == "projection-raw":
+                raws.append((blk, it))
+                blk.items[blk.items.index(it)] = ("projection", ["@@RAW%d@@" % len(raws)])
+    strip(b)
+    text = gen.render(b, lay)
+    want = gen.expected(b)
+    for n, (blk, it) in enumerate(raws, 1):
+        written = " ".join(("'" + s + "'") if '"' in s else ('"' + s + '"') for s in it[1])
+        for q in ('"', "'"):
+            text = text.replace(q + "@@RAW%d@@" % n + q, written)
+        def fix(d):
+            if isinstance(d, dict):
+                for k, v in d.items():
+                    if k == "projection" and v == ["@@RAW%d@@" % n]:
+                        d[k] = list(it[1])
+                    else:
+                        fix(v)
+            elif isinstance(d, list):
+                for v in d:
+                    fix(v)
+        fix(want)
+    return text, want
 
 
 def first_diff(a, b, path=()):
